@@ -339,6 +339,11 @@ func runSCIONServer(ctx context.Context, log *slog.Logger, mtrcs *scionServerMet
 			if fetcher != nil && len(decoded) >= 3 &&
 				decoded[len(decoded)-2] == slayers.LayerTypeEndToEndExtn {
 				authOpt, err = e2eLayer.FindOption(slayers.OptTypeAuthenticator)
+				if err == nil && len(authOpt.OptData) != scion.PacketAuthOptDataLen {
+					// PacketAuthOptMetadata panics on any other length
+					log.LogAttrs(ctx, slog.LevelInfo, "failed to authenticate packet", slog.String("cause", "unexpected authenticator option"))
+					continue
+				}
 				if err == nil {
 					spi, algo := scion.PacketAuthOptMetadata(authOpt)
 					if spi == scion.PacketAuthSPIClient && algo == scion.PacketAuthAlgorithm {
